@@ -338,7 +338,9 @@ Section Codec.
         if settings_validated && negb (setting_valid id v) then (peer, acc, false)
         else if id =? 1 then
           apply_settings rest orders
-            (mkRelay (r_flow peer) (r_cont peer) (r_hbuf peer) (dresize (r_dst peer) v) (eresize (r_est peer) v)) acc
+            (mkRelay (r_flow peer) (r_cont peer) (r_hbuf peer)
+                     (if table_size_resizes_decoder then dresize (r_dst peer) v else r_dst peer)
+                     (eresize (r_est peer) v)) acc
         else if id =? 4 then
           let '(fl, e) := update_init v (hd [] orders) (r_flow peer) in
           apply_settings rest (tl orders) (with_flow peer fl) (acc ++ e)
